@@ -22,15 +22,18 @@ theorem qVal_of_zero (x : Q) (h : qZero x = true) : qVal x = 0 := by
 theorem rlAt_nil (k : Nat) : rlAt [] k = none := by
   cases k <;> rfl
 
+theorem rlAt_map_none (f : Q → Q → Q) (hf : f none none = none) :
+    ∀ (bs : RL) (k : Nat), rlAt (bs.map (fun b => f none b)) k = f none (rlAt bs k)
+  | [], k => by simp [rlAt_nil, hf]
+  | b :: bs, 0 => by simp [rlAt]
+  | b :: bs, k+1 => by simp only [List.map_cons, rlAt]; exact rlAt_map_none f hf bs k
+
 theorem rlAt_zipPad (f : Q → Q → Q) (hf : f none none = none) :
     ∀ (a b : RL) (k : Nat), rlAt (zipPad f a b) k = f (rlAt a k) (rlAt b k)
-  | [], [], k => by simp [zipPad, rlAt_nil, hf]
+  | [], bs, k => by simp only [zipPad, rlAt_nil]; exact rlAt_map_none f hf bs k
   | a :: as, [], 0 => by simp [zipPad, rlAt]
   | a :: as, [], k+1 => by
       simp only [zipPad, rlAt]; rw [rlAt_zipPad f hf as [] k, rlAt_nil]
-  | [], b :: bs, 0 => by simp [zipPad, rlAt]
-  | [], b :: bs, k+1 => by
-      simp only [zipPad, rlAt]; rw [rlAt_zipPad f hf [] bs k, rlAt_nil]
   | a :: as, b :: bs, 0 => by simp [zipPad, rlAt]
   | a :: as, b :: bs, k+1 => by
       simp only [zipPad, rlAt]; rw [rlAt_zipPad f hf as bs k]
@@ -62,13 +65,10 @@ theorem rlVal_of_isZero (a : RL) (k : Nat) (h : rlIsZero a = true) : rlVal a k =
 
 /-- `LessThanOrEqual(a, b)` compares only keys present in both -/
 theorem rlLeq_at : ∀ (a b : RL) (k : Nat), rlLeq a b = true → qLeq (rlAt a k) (rlAt b k) = true
-  | [], [], k, _ => by simp [rlAt_nil, qLeq]
+  | [], bs, k, _ => by simp [rlAt_nil, qLeq]
   | a :: as, [], 0, h => by simp [rlLeq] at h; simp [rlAt, h.1]
   | a :: as, [], k+1, h => by
-      simp [rlLeq] at h; simp only [rlAt]; exact rlLeq_at as [] k h.2
-  | [], b :: bs, 0, h => by simp [rlLeq] at h; simp [rlAt, h.1]
-  | [], b :: bs, k+1, h => by
-      simp [rlLeq] at h; simp only [rlAt]; exact rlLeq_at [] bs k h.2
+      simp [rlLeq] at h; simp only [rlAt]; exact rlLeq_at as [] k (by simpa using h.2)
   | a :: as, b :: bs, 0, h => by simp [rlLeq] at h; simp [rlAt, h.1]
   | a :: as, b :: bs, k+1, h => by
       simp [rlLeq] at h; simp only [rlAt]; exact rlLeq_at as bs k h.2
